@@ -388,11 +388,14 @@ def finalize(mod, tier, seed, merged, wall_s, nshards):
         "wall_s": round(wall_s, 2),
         "violations": len(real),
     }
-    os.makedirs(EVIDENCE_DIR, exist_ok=True)
-    tmp = os.path.join(EVIDENCE_DIR, f".{prop}.json.tmp")
+    # self-validation tools (mutants, seeded changes) run the checks against deliberately broken trees: their runs must
+    # not overwrite the evidence of the unchanged tree (VERIF_EVIDENCE_DIR points them elsewhere)
+    evdir = os.environ.get("VERIF_EVIDENCE_DIR") or EVIDENCE_DIR
+    os.makedirs(evdir, exist_ok=True)
+    tmp = os.path.join(evdir, f".{prop}.json.tmp")
     with open(tmp, "w") as f:
         f.write(jdump(evidence, indent=1))
-    os.replace(tmp, os.path.join(EVIDENCE_DIR, f"{prop}.json"))
+    os.replace(tmp, os.path.join(evdir, f"{prop}.json"))
 
     for line in lines:
         print(line)
